@@ -277,6 +277,34 @@ func init() {
 		return ch
 	}))
 
+	// ---- sync/atomic: another thread may change the cell at any time, so the value read, and the
+	// value left behind by an update, are unknown (sound for every interleaving; no panic for a non-nil address)
+	for _, n := range []string{"Int32", "Int64", "Uint32", "Uint64"} {
+		var elem types.Type
+		switch n {
+		case "Int32":
+			elem = types.Typ[types.Int32]
+		case "Int64":
+			elem = types.Typ[types.Int64]
+		case "Uint32":
+			elem = types.Typ[types.Uint32]
+		default:
+			elem = types.Typ[types.Uint64]
+		}
+		et := elem
+		upd := ret(func(e *Exec, st *State, fr *Frame, site ssa.Instruction, args []Val) Val {
+			if t, ok := args[0].(*Term); ok {
+				e.nilCheck(st, fr, site, t)
+			}
+			e.store(st, args[0], et, e.freshVal(st, "atomic", et))
+			return e.freshResults(st, site)
+		})
+		reg("sync/atomic.Add"+n, "the cell and the result are unknown afterwards (concurrent updates)", upd)
+		reg("sync/atomic.Store"+n, "the cell is unknown afterwards (concurrent updates)", upd)
+		reg("sync/atomic.Swap"+n, "the cell and the result are unknown afterwards", upd)
+		reg("sync/atomic.CompareAndSwap"+n, "the cell and the result are unknown afterwards", upd)
+		reg("sync/atomic.Load"+n, "unknown value (concurrent updates)", fresh)
+	}
 	reg("iface:context.Context.Err", "non-nil exactly when the context's done channel is closed", ret(func(e *Exec, st *State, fr *Frame, site ssa.Instruction, args []Val) Val {
 		declFun("donech", SInt, SIface)
 		ch := App("donech", SInt, e.term(args[0]))
